@@ -36,6 +36,8 @@ def run(check: Check, repo: Repo, tier: str) -> None:
     L.escape_pairs(check, repo)
     L.hex_digit_table(check, repo)
     L.block_flag(check, repo)
+    L.block_print_table(check, repo)
+    L.list_separators(check, repo)
     L.printer_coverage(check, repo, model)
     L.parser_fields(check, repo, model)
     L.printer_per_return(check, repo, model)
